@@ -53,13 +53,32 @@ def main():
         traceback.print_exc()
         print("ERROR: checker crashed (this is a checker defect, not a verdict)", file=sys.stderr)
         return 2
-    if args.tier == "thorough" and hasattr(mod, "thorough"):
-        try:
-            mod.thorough(check)
-        except Exception:
-            traceback.print_exc()
-            return 2
-    return finish(check, meta["explanation"], meta["assumptions"], meta["not_decided"], meta.get("extra"))
+    extra = dict(meta.get("extra") or {})
+    st_problems = 0
+    if args.tier == "thorough" and os.path.abspath(args.repo) == os.path.abspath(factsmod.REPO):
+        # checker self-test: breaking edits for this property must fire, preserving edits stay silent
+        import selftest
+
+        results, dt = selftest.run(props=[prop])
+        st_problems = sum(1 for r in results if r["status"] in ("MISSED", "FALSE-ALARM", "invalid"))
+        extra["selftest"] = {
+            "edits": len(results),
+            "breaking_caught": sum(1 for r in results if r["kind"] == "breaking" and r["status"] == "ok"),
+            "preserving_silent": sum(1 for r in results if r["kind"] == "preserving" and r["status"] == "ok"),
+            "skipped": [r["name"] for r in results if r["status"] == "skipped"],
+            "problems": [{"name": r["name"], "status": r["status"], "detail": r.get("detail") or r["results"].get(prop)} for r in results if r["status"] in ("MISSED", "FALSE-ALARM", "invalid")],
+            "wall_s": round(dt, 1),
+            "samples": [{"name": r["name"], "status": r["status"], "report": (r["results"].get(prop) or {}).get("report", "")} for r in results if r["kind"] == "breaking"][:8],
+        }
+        for r in results:
+            if r["status"] in ("MISSED", "FALSE-ALARM", "invalid"):
+                print("SELFTEST-PROBLEM %s %s: %s" % (r["status"], r["name"], str(r.get("detail") or r["results"].get(prop))[:300]))
+        print("self-test for %s: %d edits, %d caught, %d silent, %d problems (%.0fs)" % (prop, len(results), extra["selftest"]["breaking_caught"], extra["selftest"]["preserving_silent"], st_problems, dt))
+    rc = finish(check, meta["explanation"], meta["assumptions"], meta["not_decided"], extra)
+    if rc == 0 and st_problems:
+        print("ERROR: the checker's self-test failed (checker defect, not a verdict on the property)", file=sys.stderr)
+        return 2
+    return rc
 
 
 if __name__ == "__main__":
